@@ -617,6 +617,9 @@ def c05():
     # a FAT32 tree that lives above cluster 65535: files emptied, removed, directories moved; statistics after each step
     high = [gen.foreign_high_program(rng, "c05-high-%d" % i) for i in range(half(6, 60))]
     res.append(("foreign-high", core.campaign("foreign-high", high, wd)))
+    # an unmount that fails (one device call, or every call from some point on), then the volume is mounted again
+    uf = [gen.unmount_fault_program(rng, "unmount-fault-%d" % i, gen.K(["K5", "K5b", "K5", "K2"][i % 4]), CS[["K5", "K5b", "K5", "K2"][i % 4]]) for i in range(half(40, 400))]
+    res.append(("unmount-fault", core.campaign("unmount-fault", uf, wd)))
     core.finish("C05", LEVEL, res, mc_layer_b(wd), t0,
                 "fill-to-full / delete-all cycles on tiny volumes plus mixed programs with statistics probes; TLC compares the reported count with the "
                 "table of the raw image and judges every NotEnoughSpace against the pre-state",
@@ -660,6 +663,9 @@ def c13():
     wd = workdir("C13")
     res = []
     res.append(("ro", core.campaign("ro", fam_ro("C13", ["K1b", "K3", "K5"], scale(36, 360), 40), wd)))
+    # FAT32 volumes whose information sector holds the valid counts 0 and 1 (full, one cluster free)
+    rng = rng_for("C13", 5)
+    res.append(("ro-full", core.campaign("ro-full", [gen.ro_full_program(rng, "ro-full-%d" % i) for i in range(scale(12, 120))], wd)))
     core.finish("C13", LEVEL, res, None, t0,
                 "populated FAT12/16/32 volumes (clean, abandoned-dirty, FSInfo count/hint unknown, foreign status bits), then sessions of non-mutating "
                 "calls only; TLC checks that no device write is issued (FSInfo exemption after statistics without a usable count)",
@@ -872,6 +878,9 @@ def c16():
             for names in sets:
                 n += 1
                 progs.append(gen.alias_program(rng, "alias-%s-%d" % (kname, n), cfg, names))
+    # names whose 16-bit hash is the largest value (and the one before): 13 + 9k collisions make the generator step its hash k times, past 0xFFFF
+    for j, (target, cnt) in enumerate([(0xFFFF, 15), (0xFFFE, 24), (0xFFFF, 24)]):
+        progs.append(gen.alias_program(rng, "alias-wrap-%d" % j, gen.K("K3"), gen.names_with_hash(rng, cnt, target), removals=0.0))
     res = [("alias", core.campaign("alias", progs, wd, n_shards=14))]
     moves = [gen.alias_move_program(rng, "alias-move-%s-%d" % (k, i), gen.K(k), n=rng.choice([4, 8, 12])) for k in ("K2", "K3", "K5") for i in range(scale(6, 60))]
     res.append(("alias-move", core.campaign("alias-move", moves, wd)))
@@ -901,6 +910,10 @@ def c18():
         progs.append(gen.clock_program(rng, "clock-%d" % i, gen.K(kname), CS[kname], 30, atime=(i % 2 == 0)))
     for i in range(scale(12, 120)):
         progs.append(gen.stamp_fault_program(rng, "stamp-fault-%d" % i, gen.K(["K1b", "K2", "K5"][i % 3])))
+    # a write that fails on a full volume stores nothing and stamps nothing
+    for i in range(scale(12, 120)):
+        kname = ["K1", "K1b", "K2"][i % 3]
+        progs.append(gen.stamp_full_program(rng, "stamp-full-%d" % i, gen.K(kname), CS[kname]))
     res = [("stamps", core.campaign("stamps", progs, wd, n_shards=14))]
     core.finish("C18", LEVEL, res, None, t0,
                 "explicit stamps: every year, every (month, day), every (hour, second), every minute and a millisecond sweep against boundary values of the "
@@ -1015,6 +1028,11 @@ def c11():
         vol, cs = gen.end_of_table_volume(rng, [12, 16, 32][i % 3])
         progs.append(gen.fill_program(rng, "c11-eot-%d" % i, {"vol": vol, "short": rng.choice([0, 0, rng.randrange(1, 1 << 30)])}, cs, rounds=1,
                                       chunk_clusters=(1, 2), use_dirs=(i % 2 == 0)))
+    # a file is emptied or shortened, other files take the space (same session or after a remount), then it is written again through a new
+    # handle: every write must land in clusters that are the file's own or were free
+    for i in range(scale(24, 240)):
+        kname = ["K1", "K1b", "K2", "K5"][i % 4]
+        progs.append(gen.reuse_program(rng, "c11-reuse-%s-%d" % (kname, i), gen.K(kname), CS[kname]))
     res = [("writes", core.campaign("writes", progs, wd, n_shards=14))]
     core.finish("C11", LEVEL, res, None, t0,
                 "every device write of namespace, file-I/O and fill histories on own and builder volumes embedded in a larger device (guard bytes after the "
